@@ -15,6 +15,7 @@ RULE = ("Generated: (mode in {explicit psi, explicit rho, model complex, model p
         "(site 0 leftmost), U psi, U rho U^dagger, their entries / diagonal at my own big-endian indices. Non-trivial = basis "
         "contains Y or a non-real user unitary AND has >= 2 distinct letters AND the operand has non-real entries.")
 RULE_EXT = ("Extended as built: user unitaries from the angle family {0, +-pi, pi/2, 2pi, +-7, drawn}, given as tensors, nested lists or ndarrays (double precision kept); operand reuse sequences (same operand rotated in a second basis, Z-only first), transposed-view (non-contiguous) operands, index batches of 257-400 entries, explicit unitaries= equal to the state's own dictionary. Rounds 5-6: the state's own dictionary disagrees with the explicit unitaries= argument (explicit wins for every letter); create_dict keeps none of the caller's buffers and default dictionaries are independent.")
+RULE_EXT += ' Round 10 (after an exception / long time axis): prelude on the state object in 1 case of 3: refused rotations with an explicit dictionary that swaps X and Y and lacks a letter (caught), then up to 41 different basis strings (the measured one first) before the measured rotations.'
 RULE = RULE + " " + RULE_EXT
 ASSUMPTIONS = ["explicit rho arguments are Hermitian (the property speaks of density matrices)",
                "Z is never overridden in a user dictionary (the library's fast path defines the reference basis by the letter Z)",
